@@ -1,4 +1,380 @@
 (* C20 - meaning-preserving transformations preserve what is built. *)
-From Fiddle Require Import PyBase PySlice Sig ArgStore PyCall Heap Traverse Transform Anchors.
+From Fiddle Require Import PyBase PySlice Sig ArgStore ArgSpec PyCall C01Check Heap Traverse Build
+  Build_stmt Traverse_proofs Tags Eq Transform Anchors PyCall_proofs Iso_proofs Copy_proofs
+  Transform_proofs.
 
-Example C20_placeholder : True. Proof. exact I. Qed.
+(* ------------------------------------------------------------------ materialize_defaults, one Buildable *)
+
+(* materialize never overwrites a stored argument *)
+Theorem C20_materialize_keeps : forall sg st k v,
+  sget st k = Some v -> sget (materialize sg st) k = Some v.
+Proof. exact materialize_keeps. Qed.
+Print Assumptions C20_materialize_keeps.
+
+(* afterwards every parameter with a default value (not a default_factory) is stored *)
+Theorem C20_materialize_total : forall sg st i p d,
+  nth_error sg i = Some p -> pdefault p = Some d -> pfactory p = false ->
+  (pk p = PosOnly \/ pk p = PosOrKw \/ pk p = KwOnly) ->
+  smem (materialize sg st)
+       (match pk p with PosOnly => kpos i | _ => KName (pname p) end) = true.
+Proof. exact materialize_total. Qed.
+Print Assumptions C20_materialize_total.
+
+Theorem C20_materialize_idempotent : forall sg st,
+  materialize sg (materialize sg st) = materialize sg st.
+Proof. exact materialize_idempotent. Qed.
+Print Assumptions C20_materialize_idempotent.
+
+(* the reference view does not change (no storage invariant needed) ... *)
+Theorem C20_materialize_preserves_view : forall sg st,
+  valid_sig sg = true -> reference_view sg (materialize sg st) = reference_view sg st.
+Proof. exact materialize_preserves_view. Qed.
+Print Assumptions C20_materialize_preserves_view.
+
+(* ... the storage invariant is kept ... *)
+Theorem C20_materialize_preserves_inv : forall sg st,
+  valid_sig sg = true -> inv01_b sg st = true -> inv01_b sg (materialize sg st) = true.
+Proof. exact materialize_preserves_inv. Qed.
+Print Assumptions C20_materialize_preserves_inv.
+
+(* ... hence the callee observes the same call *)
+Theorem C20_materialize_preserves_build : forall sg st,
+  valid_sig sg = true -> inv01_b sg st = true -> build1 sg (materialize sg st) = build1 sg st.
+Proof. exact materialize_preserves_build. Qed.
+Print Assumptions C20_materialize_preserves_build.
+
+(* ------------------------------------------------------------------ with_defaults_trimmed, one Buildable *)
+
+(* trim only removes entries *)
+Theorem C20_trim_subset : forall sg veq st kv, In kv (trim sg veq st) -> In kv st.
+Proof. exact trim_subset. Qed.
+Print Assumptions C20_trim_subset.
+
+Theorem C20_trim_only_removes : forall sg veq st k v,
+  keys_distinct st = true -> sget (trim sg veq st) k = Some v -> sget st k = Some v.
+Proof. exact trim_only_removes. Qed.
+Print Assumptions C20_trim_only_removes.
+
+Theorem C20_trim_preserves_inv : forall sg veq st,
+  inv01_b sg st = true -> inv01_b sg (trim sg veq st) = true.
+Proof. exact trim_preserves_inv. Qed.
+Print Assumptions C20_trim_preserves_inv.
+
+(* FINDING: the unconditional statement is false.  def f(a=1, /, **kw); Config(f, 5, a=1): the
+   keyword a=1 belongs to **kw but is compared with the default of the positional-only parameter a
+   and removed, so f receives kw={} instead of kw={'a': 1}. *)
+Theorem C20_trim_changes_kwargs :
+  valid_sig cx_sg = true /\ inv01_b cx_sg cx_st = true /\ no_shadow cx_sg cx_st = false /\
+  build1 cx_sg cx_st = Some [ (1%N, PV (cx_int 5)); (8%N, PDict [(1%N, cx_int 1)]) ] /\
+  build1 cx_sg (trim cx_sg ref_eqb cx_st) = Some [ (1%N, PV (cx_int 5)); (8%N, PDict []) ].
+Proof. exact trim_changes_kwargs. Qed.
+Print Assumptions C20_trim_changes_kwargs.
+
+(* the strongest partial variant: no stored keyword is named like a positional-only parameter
+   (no_shadow); with exact equality of values the view is unchanged *)
+Theorem C20_trim_preserves_view_partial : forall sg st,
+  valid_sig sg = true -> keys_distinct st = true -> no_shadow sg st = true ->
+  reference_view sg (trim sg ref_eqb st) = reference_view sg st.
+Proof. exact trim_preserves_view. Qed.
+Print Assumptions C20_trim_preserves_view_partial.
+
+Theorem C20_trim_preserves_build_partial : forall sg st,
+  valid_sig sg = true -> inv01_b sg st = true -> no_shadow sg st = true ->
+  build1 sg (trim sg ref_eqb st) = build1 sg st.
+Proof. exact trim_preserves_build. Qed.
+Print Assumptions C20_trim_preserves_build_partial.
+
+(* without **kwargs the side condition follows from the storage invariant *)
+Theorem C20_trim_preserves_build : forall sg st,
+  valid_sig sg = true -> inv01_b sg st = true -> has_var_kw sg = false ->
+  build1 sg (trim sg ref_eqb st) = build1 sg st.
+Proof. exact trim_preserves_build_nokw. Qed.
+Print Assumptions C20_trim_preserves_build.
+
+Theorem C20_inv01_no_shadow : forall sg st,
+  has_var_kw sg = false -> inv01_b sg st = true -> no_shadow sg st = true.
+Proof. exact inv01_no_shadow. Qed.
+Print Assumptions C20_inv01_no_shadow.
+
+(* an arbitrary reflexive equality (Python ==): the callee's view after trimming is the view before
+   with some values replaced by the veq-equal parameter default; *args and **kwargs are identical *)
+Theorem C20_trim_view_rel : forall veq sg st,
+  (forall a, veq a a = true) ->
+  valid_sig sg = true -> keys_distinct st = true -> no_shadow sg st = true ->
+  view_rel veq (reference_view sg (trim sg veq st)) (reference_view sg st).
+Proof. exact trim_view_rel. Qed.
+Print Assumptions C20_trim_view_rel.
+
+Theorem C20_trim_build_rel : forall veq sg st,
+  (forall a, veq a a = true) ->
+  valid_sig sg = true -> inv01_b sg st = true -> no_shadow sg st = true ->
+  view_rel veq (build1 sg (trim sg veq st)) (build1 sg st).
+Proof. exact trim_build_rel. Qed.
+Print Assumptions C20_trim_build_rel.
+
+Theorem C20_view_rel_exact : forall a b, view_rel ref_eqb a b -> a = b.
+Proof. exact view_rel_eq. Qed.
+Print Assumptions C20_view_rel_exact.
+
+(* trimming what was materialized gives back the same view *)
+Theorem C20_trim_materialize_view_rel : forall veq sg st,
+  (forall a, veq a a = true) ->
+  valid_sig sg = true -> keys_distinct st = true -> no_shadow sg st = true ->
+  view_rel veq (reference_view sg (trim sg veq (materialize sg st))) (reference_view sg st).
+Proof. exact trim_materialize_view_rel. Qed.
+Print Assumptions C20_trim_materialize_view_rel.
+
+Theorem C20_trim_materialize_view : forall sg st,
+  valid_sig sg = true -> keys_distinct st = true -> no_shadow sg st = true ->
+  reference_view sg (trim sg ref_eqb (materialize sg st)) = reference_view sg st.
+Proof. exact trim_materialize_view. Qed.
+Print Assumptions C20_trim_materialize_view.
+
+Theorem C20_trim_materialize_build : forall sg st,
+  valid_sig sg = true -> inv01_b sg st = true -> no_shadow sg st = true ->
+  build1 sg (trim sg ref_eqb (materialize sg st)) = build1 sg st.
+Proof. exact trim_materialize_build. Qed.
+Print Assumptions C20_trim_materialize_build.
+
+(* the sget form of "only removes" needs distinct keys *)
+Theorem C20_trim_sget_needs_distinct :
+  sget (trim cx_sg2 ref_eqb cx_st2) (KName 3) = Some (cx_int 5) /\
+  sget cx_st2 (KName 3) = Some (cx_int 3).
+Proof. exact trim_sget_needs_distinct. Qed.
+Print Assumptions C20_trim_sget_needs_distinct.
+
+(* non-vacuity: def f(a=1, b=2, /, c=3, *, k=4); {1: 20, 'k': 4} *)
+Theorem C20_nonvacuous :
+  valid_sig ex20_sg = true /\ inv01_b ex20_sg ex20_st = true /\ no_shadow ex20_sg ex20_st = true /\
+  materialize ex20_sg ex20_st =
+    [ (KPos 1, cx_int 20); (KName 4, cx_int 4); (KPos 0, cx_int 1); (KName 3, cx_int 3) ] /\
+  build1 ex20_sg ex20_st = Some ex20_view /\
+  build1 ex20_sg (materialize ex20_sg ex20_st) = Some ex20_view /\
+  trim ex20_sg ref_eqb (materialize ex20_sg ex20_st) = [ (KPos 1, cx_int 20); (KPos 0, cx_int 1) ] /\
+  build1 ex20_sg (trim ex20_sg ref_eqb (materialize ex20_sg ex20_st)) = Some ex20_view.
+Proof. exact ex20_nonvacuous. Qed.
+Print Assumptions C20_nonvacuous.
+
+(* FINDING (known): == is not identity.  def g(x=1); Config(g, x=True): True == 1, x is trimmed and
+   g receives 1; C20_trim_build_rel is the most that holds for Python equality *)
+Theorem C20_trim_py_eq_changes_value :
+  valid_sig cx_sg3 = true /\ inv01_b cx_sg3 cx_st3 = true /\ no_shadow cx_sg3 cx_st3 = true /\
+  build1 cx_sg3 cx_st3 = Some [ (1%N, PV (RA (ABool true))) ] /\
+  build1 cx_sg3 (trim cx_sg3 leaf_eq cx_st3) = Some [ (1%N, PV (cx_int 1)) ].
+Proof. exact trim_py_eq_changes_value. Qed.
+Print Assumptions C20_trim_py_eq_changes_value.
+
+Theorem C20_leaf_eq_refl : forall a, leaf_eq a a = true.
+Proof. exact leaf_eq_refl. Qed.
+Print Assumptions C20_leaf_eq_refl.
+
+(* ------------------------------------------------------------------ materialize_defaults on a graph *)
+
+Theorem C20_materialize_defaults_length : forall e h r,
+  length (materialize_defaults e h r) = length h.
+Proof. exact materialize_defaults_length. Qed.
+Print Assumptions C20_materialize_defaults_length.
+
+(* only argument stores of Buildables change, and only by materialize *)
+Theorem C20_materialize_defaults_buildable : forall e h r i k fn args tags,
+  nth_error h i = Some (NBuildable k fn args tags) ->
+  exists args', nth_error (materialize_defaults e h r) i = Some (NBuildable k fn args' tags) /\
+                (args' = args \/ args' = materialize (sig_of e fn) args).
+Proof. exact materialize_defaults_buildable. Qed.
+Print Assumptions C20_materialize_defaults_buildable.
+
+Theorem C20_materialize_defaults_other : forall e h r i n,
+  nth_error h i = Some n -> (forall k fn args tags, n <> NBuildable k fn args tags) ->
+  nth_error (materialize_defaults e h r) i = Some n.
+Proof. exact materialize_defaults_other. Qed.
+Print Assumptions C20_materialize_defaults_other.
+
+(* every Buildable of the graph is called exactly as before *)
+Theorem C20_materialize_defaults_preserves_calls : forall e h r i k fn args tags,
+  nth_error h i = Some (NBuildable k fn args tags) ->
+  valid_sig (sig_of e fn) = true ->
+  exists args', nth_error (materialize_defaults e h r) i = Some (NBuildable k fn args' tags) /\
+    reference_view (sig_of e fn) args' = reference_view (sig_of e fn) args /\
+    (inv01_b (sig_of e fn) args = true ->
+     inv01_b (sig_of e fn) args' = true /\ build1 (sig_of e fn) args' = build1 (sig_of e fn) args).
+Proof. exact materialize_defaults_preserves_calls. Qed.
+Print Assumptions C20_materialize_defaults_preserves_calls.
+
+(* every Buildable the root still reaches has all its defaults stored *)
+Theorem C20_materialize_defaults_reachable : forall e h r i k fn args tags,
+  wf_b e (map (mat_node e) h) = true -> root_ok h r ->
+  nth_error h i = Some (NBuildable k fn args tags) ->
+  creach e (materialize_defaults e h r) r i ->
+  nth_error (materialize_defaults e h r) i =
+    Some (NBuildable k fn (materialize (sig_of e fn) args) tags).
+Proof. exact materialize_defaults_reachable. Qed.
+Print Assumptions C20_materialize_defaults_reachable.
+
+Theorem C20_materialize_defaults_idempotent : forall e h r,
+  materialize_defaults e (materialize_defaults e h r) r = materialize_defaults e h r.
+Proof. exact materialize_defaults_idempotent. Qed.
+Print Assumptions C20_materialize_defaults_idempotent.
+
+(* ------------------------------------------------------------------ with_defaults_trimmed on a graph *)
+
+Theorem C20_wdt_total : forall e h r s res,
+  wf_b e h = true -> root_ok h r -> with_defaults_trimmed e h r = (s, res) ->
+  exists r', res = inl r'.
+Proof. exact wdt_total. Qed.
+Print Assumptions C20_wdt_total.
+
+(* the input graph is not modified *)
+Theorem C20_wdt_pure : forall e h r s res,
+  with_defaults_trimmed e h r = (s, res) ->
+  firstn (length h) (out s) = h /\ (length h <= length (out s))%nat.
+Proof. exact wdt_pure. Qed.
+Print Assumptions C20_wdt_pure.
+
+Theorem C20_wdt_once : forall e h r s res,
+  wf_b e h = true -> root_ok h r -> with_defaults_trimmed e h r = (s, res) -> NoDup (log s).
+Proof. exact wdt_once. Qed.
+Print Assumptions C20_wdt_once.
+
+(* the returned graph is a one-to-one image of the graph of trimmed Buildables *)
+Theorem C20_wdt_faithful : forall e h r s res,
+  wf_b e h = true -> root_ok h r -> with_defaults_trimmed e h r = (s, res) ->
+  (forall i n, creach e (pre_trim e h) r i -> nth_error (pre_trim e h) i = Some n -> node_canonical e n) ->
+  forall r', res = inl r' ->
+  bij_wf (memo_bij (memo s)) /\ simulates (pre_trim e h) (out s) (memo_bij (memo s)) /\
+  rel_ref (memo_bij (memo s)) r r'.
+Proof. exact wdt_faithful. Qed.
+Print Assumptions C20_wdt_faithful.
+
+(* and each of those is called with ==-equal arguments *)
+Theorem C20_wdt_preserves_calls : forall e h i k fn args tags,
+  nth_error h i = Some (NBuildable k fn args tags) ->
+  valid_sig (sig_of e fn) = true -> keys_distinct args = true -> no_shadow (sig_of e fn) args = true ->
+  exists args', nth_error (pre_trim e h) i = Some (NBuildable k fn args' tags) /\
+    view_rel leaf_eq (reference_view (sig_of e fn) args') (reference_view (sig_of e fn) args).
+Proof. exact wdt_preserves_calls. Qed.
+Print Assumptions C20_wdt_preserves_calls.
+
+(* ------------------------------------------------------------------ the identity rebuild (clear_argument_history) *)
+
+Theorem C20_clear_history_total : forall e h r s res,
+  wf_b e h = true -> root_ok h r -> mrun e h (trim_node e) r = (s, res) -> exists r', res = inl r'.
+Proof. exact clear_history_total. Qed.
+Print Assumptions C20_clear_history_total.
+
+Theorem C20_clear_history_pure : forall e h r s res,
+  wf_b e h = true -> root_ok h r -> mrun e h (trim_node e) r = (s, res) ->
+  firstn (length h) (out s) = h /\ (length h <= length (out s))%nat.
+Proof. exact clear_history_pure. Qed.
+Print Assumptions C20_clear_history_pure.
+
+Theorem C20_clear_history_once : forall e h r s res,
+  wf_b e h = true -> root_ok h r -> mrun e h (trim_node e) r = (s, res) -> NoDup (log s).
+Proof. exact clear_history_once. Qed.
+Print Assumptions C20_clear_history_once.
+
+Theorem C20_clear_history_faithful : forall e h r s res,
+  wf_b e h = true -> root_ok h r -> mrun e h (trim_node e) r = (s, res) ->
+  (forall i n, creach e h r i -> nth_error h i = Some n -> node_canonical e n) ->
+  forall r', res = inl r' ->
+  bij_wf (memo_bij (memo s)) /\ simulates h (out s) (memo_bij (memo s)) /\
+  rel_ref (memo_bij (memo s)) r r'.
+Proof. exact clear_history_faithful. Qed.
+Print Assumptions C20_clear_history_faithful.
+
+(* ------------------------------------------------------------------ simplify_partials *)
+
+Theorem C20_simplify_total : forall e h r s res,
+  wf_b e h = true -> root_ok h r -> simplify_partials e h r = (s, res) -> exists r', res = inl r'.
+Proof. exact simplify_total. Qed.
+Print Assumptions C20_simplify_total.
+
+Theorem C20_simplify_pure : forall e h r s res,
+  wf_b e h = true -> root_ok h r -> simplify_partials e h r = (s, res) ->
+  firstn (length h) (out s) = h /\ (length h <= length (out s))%nat.
+Proof. exact simplify_pure. Qed.
+Print Assumptions C20_simplify_pure.
+
+Theorem C20_simplify_once : forall e h r s res,
+  wf_b e h = true -> root_ok h r -> simplify_partials e h r = (s, res) -> NoDup (log s).
+Proof. exact simplify_once. Qed.
+Print Assumptions C20_simplify_once.
+
+Theorem C20_simplify_exactly_creach : forall e h r s res,
+  wf_b e h = true -> root_ok h r -> simplify_partials e h r = (s, res) ->
+  forall i, In i (log s) <-> creach e h r i.
+Proof. exact simplify_exactly_creach. Qed.
+Print Assumptions C20_simplify_exactly_creach.
+
+(* an unconfigured Partial becomes its callable, every other container is rebuilt over the images
+   of its children, everything else is kept *)
+Theorem C20_simplify_mirrors : forall e h r s res,
+  wf_b e h = true -> root_ok h r -> simplify_partials e h r = (s, res) ->
+  forall i n ri, nth_error h i = Some n -> memo_get (memo s) i = Some ri ->
+  exists rs, map (map_ref (memo s)) (children e n) = map Some rs /\
+    ((traversable n = false /\ ri = RP i) \/
+     (exists fn args tags, n = NBuildable BPartial fn args tags /\
+                           nondefault_args e fn args = [] /\ ri = RA (ASym fn)) \/
+     (traversable n = true /\
+      exists k, ri = RP k /\ (length h <= k)%nat /\
+                nth_error (out s) k = Some (with_children e n rs))).
+Proof. exact simplify_mirrors. Qed.
+Print Assumptions C20_simplify_mirrors.
+
+(* ------------------------------------------------------------------ materialize_tags *)
+
+Theorem C20_mattags_total : forall e h r s res,
+  wf_b e h = true -> root_ok h r -> materialize_tags e h r = (s, res) -> exists r', res = inl r'.
+Proof. exact mattags_total. Qed.
+Print Assumptions C20_mattags_total.
+
+Theorem C20_mattags_pure : forall e h r s res,
+  wf_b e h = true -> root_ok h r -> materialize_tags e h r = (s, res) ->
+  firstn (length h) (out s) = h /\ (length h <= length (out s))%nat.
+Proof. exact mattags_pure. Qed.
+Print Assumptions C20_mattags_pure.
+
+Theorem C20_mattags_once : forall e h r s res,
+  wf_b e h = true -> root_ok h r -> materialize_tags e h r = (s, res) -> NoDup (log s).
+Proof. exact mattags_once. Qed.
+Print Assumptions C20_mattags_once.
+
+Theorem C20_mattags_exactly_creach : forall e h r s res,
+  wf_b e h = true -> root_ok h r -> materialize_tags e h r = (s, res) ->
+  forall i, In i (log s) <-> creach e h r i.
+Proof. exact mattags_exactly_creach. Qed.
+Print Assumptions C20_mattags_exactly_creach.
+
+(* a TaggedValue holding a value becomes (the image of) that value *)
+Theorem C20_mattags_mirrors : forall e h r s res,
+  wf_b e h = true -> root_ok h r -> materialize_tags e h r = (s, res) ->
+  forall i n ri, nth_error h i = Some n -> memo_get (memo s) i = Some ri ->
+  exists rs, map (map_ref (memo s)) (children e n) = map Some rs /\
+    ((traversable n = false /\ ri = RP i) \/
+     (exists fn args tags, n = NBuildable BTagged fn args tags /\
+        sget (combine (map fst (flat_args e fn args)) rs) (KName 0%N) = Some ri /\ ri <> NoValue) \/
+     (traversable n = true /\
+      exists k, ri = RP k /\ (length h <= k)%nat /\
+                nth_error (out s) k = Some (with_children e n rs))).
+Proof. exact mattags_mirrors. Qed.
+Print Assumptions C20_mattags_mirrors.
+
+(* non-vacuity at the graph level: [cfg, partial(f), TaggedValue(7), cfg] with cfg shared *)
+Theorem C20_graph_nonvacuous :
+  wf_b ex20_env ex20_heap = true /\
+  nth_error (materialize_defaults ex20_env ex20_heap (RP 3)) 0 =
+    Some (NBuildable BConfig 10
+            [ (KPos 1, cx_int 20); (KName 4, cx_int 4); (KPos 0, cx_int 1); (KName 3, cx_int 3) ] []) /\
+  nth_error (materialize_defaults ex20_env ex20_heap (RP 3)) 1 =
+    Some (NBuildable BPartial 10
+            [ (KPos 0, cx_int 1); (KPos 1, cx_int 2); (KName 3, cx_int 3); (KName 4, cx_int 4) ] []) /\
+  (let sr := with_defaults_trimmed ex20_env (materialize_defaults ex20_env ex20_heap (RP 3)) (RP 3) in
+   node_at sr = Some (NList [ RP 4; RP 5; RP 6; RP 4 ]) /\
+   nth_error (out (fst sr)) 4 =
+     Some (NBuildable BConfig 10 [ (KPos 0, cx_int 1); (KPos 1, cx_int 20) ] []) /\
+   firstn 4 (out (fst sr)) = materialize_defaults ex20_env ex20_heap (RP 3)) /\
+  node_at (simplify_partials ex20_env ex20_heap (RP 3)) =
+    Some (NList [ RP 4; RA (ASym 10); RP 5; RP 4 ]) /\
+  node_at (materialize_tags ex20_env ex20_heap (RP 3)) =
+    Some (NList [ RP 4; RP 5; cx_int 7; RP 4 ]).
+Proof. exact ex20_graph. Qed.
+Print Assumptions C20_graph_nonvacuous.
